@@ -194,6 +194,7 @@ theorem compileStmtH_eq_compileStmt_effect (env : CEnv) (s : CStmt) (st : HSt) (
       (compileStmt env ⟨st.imms, st.hyb⟩ s).map (fun r => (some r.1, [], fromT st r.2)) := by
   rw [compileStmtH_eq env s st hfree hsame hlive hpend]
   simp only [effOpt, hbare, Bool.false_eq_true, ↓reduceIte]
+  rfl
 
 theorem compileStmtsH_eq_compileStmts (env : CEnv) (ss : List CStmt) (st : HSt)
     (hfree : HybFreeSs ss = true) (hsame : HSameSs env ss = true) (hlive : st.live = st.imms.map (·.1))
